@@ -131,9 +131,28 @@ class SrvFamily(Family):
             out.append("srv " + " | ".join(steps))
         return out
 
+    def gen_bodyfds(self, rng):
+        """descriptors attached in the middle of a message (on the body segment, header and body written separately), for
+        every request that has a body, with and without the descriptors the request itself takes on its first byte"""
+        out = []
+        for code in vu.IMPLEMENTED:
+            body, nf = vu.valid_request(rng, code)
+            if not body:
+                continue
+            for nb in (1, 3):
+                for seq in ("", " seq"):
+                    for need in (0, 8):
+                        pre, *_ = vu.negotiation(rng, 2)
+                        h = vu.hdr(code, 1 | need, len(body) // 2)
+                        out.append("srv " + " | ".join(pre + [f"m {h}+{body} f{nf} {vu.hout(rng, code, 0.0)} bf{nb}{seq}",
+                                                              vu.step(vu.GET_FEATURES, 1, "", 0, "h=ok,v=1")]))
+        return out
+
     def generate(self, tier, rng):
         sz = self.sizes[tier]
         L = []
+        if "bodyfds" in self.modes:
+            L += self.gen_bodyfds(rng)
         if "wf" in self.modes:
             L += self.gen_wf(rng, sz["wf"])
         if "gate" in self.modes:
